@@ -108,6 +108,9 @@ def strategy(tier):
     return case_strategy()
 
 
+_PRISTINE_DEFAULTS = [repr(build.magpy.defaults.as_dict())]
+
+
 def displayed_indices(frames, n):
     if frames is None:
         return [n - 1]
@@ -127,6 +130,10 @@ def _unit_factor(fig):
 def run_case(case, ctx):
     magpy = build.magpy
     out = []
+    if repr(magpy.defaults.as_dict()) != _PRISTINE_DEFAULTS[0]:
+        from vf.props.c20 import restore_defaults  # pylint: disable=import-outside-toplevel
+
+        restore_defaults()  # global library state is restored before every case (a leak detected in one case is reported there)
     colors = ["red", "blue", "green", "orange"]
     objs = []
     for i, s in enumerate(case["members"]):
